@@ -12,15 +12,23 @@ func init() {
 		Level: "exploration",
 		Rule: "random histories over six foreign-key wirings (fk index nullable / non-nullable / cascade-delete; fk constraint nullable or not with cascade none / delete / create-update; self-referencing store) " +
 			"with ids containing quotes, backslash escapes, newlines, spaces and filter keywords; model predicts accept / reject class and the exact cascade closure; structural monitor compares back-reference buckets, " +
-			"dangling references and the surviving id set after every transaction; non-trivial = distinct (op kind, store, outcome, population class, configuration) tuples",
+			"dangling references and the surviving id set after every transaction; Part (b): a store whose fk index points at itself (self references, cycles) plus a second store referencing it, with ids of 32766-32768 bytes, judged without a model after every operation: an error changed nothing; every reference names an existing entity listed back by its target; every back-reference entry names an existing referrer. non-trivial = distinct (op kind, store, outcome, population class, configuration) tuples",
 		Assumptions: []string{"cascade-delete cycles are not driven (unbounded recursion, liveness)", "CascadeCreateUpdate declares no enforcement on delete: dangling boss references there are predicted, not reported"},
 		Plan: func(tier core.Tier, seed int64) int {
 			if tier == core.Thorough {
-				return 96000
+				return 96000 + c04SelfCases*20
 			}
-			return 720
+			return 720 + c04SelfCases
 		},
 		Run: func(c *core.Ctx, idx int) {
+			nHist := 720
+			if c.Tier == core.Thorough {
+				nHist = 96000
+			}
+			if idx >= nHist {
+				c04Self(c, idx-nHist)
+				return
+			}
 			r := c.Rand()
 			cfg := kmodel.AllConfigs[idx%len(kmodel.AllConfigs)]
 			w := map[string]int{"create": 10, "update": 5, "patch": 5, "delete": 9, "deletewhere": 2}
@@ -51,8 +59,10 @@ func init() {
 				}})
 		},
 		Promises: func(core.Tier) map[string][]string {
-			return map[string][]string{"op_outcome": {"create:ok", "create:notfound", "update:notfound", "delete:ok", "delete:refexists", "delete:notfound"}}
+			return map[string][]string{"op_outcome": {"create:ok", "create:notfound", "update:notfound", "delete:ok", "delete:refexists", "delete:notfound"},
+				"self_fk": {"create-node:ok", "create-node:error", "update-node:ok", "update-node:error", "delete-node:ok", "delete-node:error", "create-pin:ok", "create-pin:error", "delete-pin:ok"},
+				"self_fk_shape": {"self", "self+edge-size id"}}
 		},
-		MinCounters: func(core.Tier) map[string]int64 { return map[string]int64{"cascade_deletes": 20} },
+		MinCounters: func(core.Tier) map[string]int64 { return map[string]int64{"cascade_deletes": 20, "self_fk_states_checked": 1000} },
 	})
 }
